@@ -65,12 +65,12 @@ func VerifC11_StayPaused() {
 	ctx := context.Background()
 	if selfInit {
 		resp := verifArbitraryResponse("resp")
-		resp.TransferId = uint64(chid.ID)
+		zz.SetInt(&resp.TransferId, uint64(chid.ID))
 		zz.Assume(resp.MessageType == uint64(types.UpdateMessage) && !resp.Paused)
 		_ = f.rcv.receiveResponse(ctx, other, resp)
 	} else {
 		req := verifArbitraryRequest("req")
-		req.TransferId = uint64(chid.ID)
+		zz.SetInt(&req.TransferId, uint64(chid.ID))
 		zz.Assume(req.MessageType == uint64(types.UpdateMessage) && !req.Pause)
 		_ = f.rcv.receiveRequest(ctx, other, req)
 	}
@@ -107,12 +107,12 @@ func VerifC11_CounterpartyPause() {
 	ctx := context.Background()
 	if selfInit {
 		resp := verifArbitraryResponse("resp")
-		resp.TransferId = uint64(chid.ID)
+		zz.SetInt(&resp.TransferId, uint64(chid.ID))
 		zz.Assume(resp.MessageType == uint64(types.UpdateMessage) && resp.Paused)
 		_ = f.rcv.receiveResponse(ctx, other, resp)
 	} else {
 		req := verifArbitraryRequest("req")
-		req.TransferId = uint64(chid.ID)
+		zz.SetInt(&req.TransferId, uint64(chid.ID))
 		zz.Assume(req.MessageType == uint64(types.UpdateMessage) && req.Pause)
 		_ = f.rcv.receiveRequest(ctx, other, req)
 	}
